@@ -57,7 +57,7 @@ def fp_params(o, first, all_iters=None):
 
 class C14(vlib.Check):
     id = "C14"
-    props_modules = ["E3fpVerif.Props.C14", "E3fpVerif.Props.C14Entry"]
+    props_modules = ["E3fpVerif.Props.C14", "E3fpVerif.Props.C14Entry", "E3fpVerif.Props.C14Save"]
     gen_items = ["fprinter_consts"]
     rule = ("molecules with 1..12 conformers (from the shipped SDFs and embedded SMILES), named / unnamed / with names from a "
             "suffix-free list (and, for the naming model only, names with -digits/_digits suffixes); first in {-1,1,2,n-1,n,n+5}; "
@@ -188,6 +188,10 @@ class C14(vlib.Check):
         keys = sorted(int(k) for k in out["dict"])
         first = out["dict"][str(keys[-1])] if keys else []
         res = {"n": len(first), "names": [n for n, _ in first], "keys": keys}
+        if case["entry"] == "save":
+            # the state of the molecule's output files after the call: holding the list just returned ("fresh") or something else
+            res["files"] = sorted([-1 if sfx == "_complete" else int(sfx), "fresh" if content == out["dict"].get("-1" if sfx == "_complete" else sfx) else "prior"]
+                                  for sfx, content in out["files"].items())
         if case["entry"] in FULL_ENTRIES:
             # the whole result goes to the comparison with the model of the conformer loop (`fpo.entry`)
             res["dict"] = [[k, [[d, n] for n, d in out["dict"][str(k)]]] for k in keys]
@@ -202,6 +206,9 @@ class C14(vlib.Check):
         lvl = -1 if lvl is None else lvl
         ops = [{"op": "pipe.plan", "name": case["name"], "nconf": case["nconf"], "first": case["first"], "level": lvl,
                 "all_iters": case["entry"] == "dict_all_iters" or bool(case.get("all_iters")), "select": lvl}]
+        if case["entry"] == "save":
+            pre = [[k, "prior"] for k in range(case["prior"]["level"] + 1)] if case.get("prior") else []
+            ops.append({"op": "pipe.save_run", "name": "m", "level": lvl, "all_iters": bool(case.get("all_iters")), "overwrite": False, "ok": True, "pre": pre})
         if case["entry"] in FULL_ENTRIES:
             import numpy as np
             mol = sub_mol(case["ref"], case["nconf"], case["name"])
@@ -233,6 +240,8 @@ class C14(vlib.Check):
         if case["entry"] in ("from_mol", "from_sdf", "from_mol_all_iters", "select"):
             return {"ok": {"n": o["n"], "names": o["names"]}}
         res = {"n": o["n"], "names": o["names"], "keys": sorted(o["keys"])}
+        if case["entry"] == "save":
+            res["files"] = sorted(answers[1]["ok"]["files"]) if "ok" in answers[1] else answers[1]
         if case["entry"] in FULL_ENTRIES:
             ents = answers[1:4]
             if any(vlib.canon(e) != vlib.canon(ents[0]) for e in ents[1:]):
